@@ -84,6 +84,43 @@ CHECKS = {
         technique="TLA+ reference semantics enumerated by TLC + replay into the code + TLC trace validation",
         engine="tlc-gen+trace",
     ),
+    "C03": dict(
+        category="model_checking",
+        text="ProgramSpace.tla enumerates source program (several triggers per line/file) x layout/encoding variant (LF, CRLF, lone CR, "
+        "no final newline, BOM, form feed, vertical tab, unicode separators, tabs, trailing whitespace, non-ASCII) x manifests x codemod "
+        "sequences of length 1..3 x dry-run; a pairwise-covering sample is run through the real CLI and every step of every trace is "
+        "checked by Trace_Run against Run.tla: each reported diff applied (independent applier) to the preceding content gives the "
+        "content on disk, diffs compose from the original to the final content, files without changeset are byte-identical, every "
+        "changeset is a real change; MC_Run shows the design satisfies the invariants for every interleaving.",
+        design_ref="DESIGN.md §5 C03",
+        note="Trusted: TLC, harness/patch.py (LF-delimited lines, one final newline tolerated, also when shown as an empty last "
+        "line), content interning by hash.",
+        technique="TLC model checking of the run design + TLC trace validation of real runs over a TLC-enumerated scenario space",
+        engine="tlc-gen+trace",
+    ),
+    "C04": dict(
+        category="model_checking",
+        text="ProgramSpace vectors (all manifest kinds, dependency-adding codemods, layouts, sequences) run with --dry-run and, on a "
+        "restored copy, for real; Trace_Run checks on the dry trace that no FileEnd / Deps step moves the disk and that the final tree "
+        "snapshot (creations and deletions included) equals the initial one; single-codemod reports are compared (Compare event); "
+        "MC_Run checks C04_DryRunFrozen on the design with dryRun unconstrained.",
+        design_ref="DESIGN.md §5 C04",
+        note="Trusted: TLC, tree snapshots, report normalisation (elapsed, directory, commandLine dropped).",
+        technique="TLC model checking of the run design + TLC trace validation of paired dry/real runs",
+        engine="tlc-gen+trace",
+    ),
+    "C15": dict(
+        category="model_checking",
+        text="Every run of a ProgramSpace sample plus corner runs (no codemod, empty directory, all files failing, non-ASCII paths, SAST "
+        "runs of each tool with the repository's seed findings) is validated by Trace_Run: report = BuildReport(queue, aggregates) "
+        "(one result per selected codemod, in order, with exactly the changesets and failures the run merged), failed/changed disjoint, "
+        "change lines inside the file, descriptions non-empty; the document is validated against the vendored JSON schema as built "
+        "and as written.",
+        design_ref="DESIGN.md §5 C15",
+        note="Trusted: TLC, jsonschema, schema/codetf.schema.json (hand transcription: the official schema is not available offline).",
+        technique="TLC trace validation of real runs (relational report invariants) + JSON-schema validation",
+        engine="tlc-gen+trace",
+    ),
 }
 
 NOT_APPLICABLE: list[dict] = []
